@@ -301,6 +301,8 @@ def check_case(case, rec=None, compiled=None):
             T.writer[reg][idx] = me
             T.ident[reg][idx] = my_id
             box = lab.get("ofm_box") if use_labels else None
+            if box and lab.get("ofm_stride_multiplier", [1, 1, 1]) != [1, 1, 1]:
+                box = None  # interleaved writes (half-pixel x2 RESIZE_BILINEAR: four operators write every second row/column): the box is in the operator's own coordinates, rows unknown
             if box:
                 rows = (box[0][1] + np.arange(o_["height"]))[:, None, None] + np.zeros(addr.shape, np.int64)
                 T.row[reg][idx] = np.repeat(rows.reshape(-1), esz)
